@@ -120,7 +120,8 @@ func init() {
 		by Definition Lemma Theorem Proof Qed
 		true false negb andb orb xorb Some None nil cons tt pair fst snd map length list option bool unit Z nat
 		add64 sub64 mul64 neg64 wrap64 addu64 subu64 mulu64 wrapu64 i64 u64 gstring gstr_eqb gstr_ltb gstr_leb gstr_gtb gstr_geb
-		range_loop range_loop_i LNext LBreak LRet LDone LReturn lstep lend Forall`) {
+		range_loop range_loop_i LNext LBreak LRet LDone LReturn lstep lend Forall
+		Admitted admit Axiom Axioms Parameter Parameters Conjecture Conjectures`) {
 		coqReserved[w] = true
 	}
 }
